@@ -22,6 +22,10 @@ def floors(tier):
 
 
 def gen_cases(tier, seed):
+    return _gen_cases(tier, seed) + symfam.gen_general_first_cases(tier, seed, 12)
+
+
+def _gen_cases(tier, seed):
     if tier == "quick":
         return symfam.gen_cases(tier, seed, 12, per_group=1, n_pres=2, extra_random=60)
     return symfam.gen_cases(tier, seed, 12, per_group=8, n_pres=3, extra_random=400)
